@@ -213,4 +213,63 @@ mutual
     | _, _, _ => true
 end
 
+/-! ### delete / replace (node/selection.go Delete, ReplaceFrom) -/
+
+/-- `Next{Delete, Key}` on the list node: remove the (first) entry with that key -/
+def removeRow (k : Key) : List (Key × List Data) → List (Key × List Data)
+  | [] => []
+  | (k', b) :: r => if k' = k then r else (k', b) :: removeRow k r
+
+/-- `Child{Delete}` on the parent: the child container or whole list is gone -/
+def deleteChild (ks : List Schema) (i : Nat) (body : List Data) : List Data :=
+  match ks[i]? with
+  | some s => body.set i (emptyOf s)
+  | none => body
+
+/-- delete the entry with key k of the list that is child i -/
+def deleteRow (i : Nat) (k : Key) (body : List Data) : List Data :=
+  match body[i]? with
+  | some (.list rows) => body.set i (.list (removeRow k rows))
+  | _ => body
+
+/-- a source document for the parent that mentions only child i -/
+def onlyChild (ks : List Schema) (i : Nat) (d : Data) : List Data := (emptyBody ks).set i d
+
+/-- ReplaceFrom on the container / whole list that is child i: delete, then insert at the parent -/
+def replaceChild (ks : List Schema) (i : Nat) (d : Data) (body : List Data) : Except Err (List Data) :=
+  editKids .insert false ks (onlyChild ks i d) (deleteChild ks i body)
+
+/-! ### histories of operations on one root container -/
+
+inductive Op
+  | upsert (doc : List Data)
+  | insert (doc : List Data)
+  | update (doc : List Data)
+  | delChild (i : Nat)
+  | delRow (i : Nat) (k : Key)
+  | replace (i : Nat) (d : Data)
+
+def okOr (body : List Data) : Except Err (List Data) → List Data
+  | .ok b => b
+  | .error _ => body        -- a failed request leaves the tree as it was
+
+def step (ks : List Schema) (body : List Data) : Op → List Data
+  | .upsert doc => okOr body (editKids .upsert false ks doc body)
+  | .insert doc => okOr body (editKids .insert false ks doc body)
+  | .update doc => okOr body (editKids .update false ks doc body)
+  | .delChild i => deleteChild ks i body
+  | .delRow i k => deleteRow i k body
+  | .replace i d => okOr body (replaceChild ks i d body)
+
+/-- the documents of a request conform to the schema and have unique keys themselves -/
+def Op.wf (ks : List Schema) : Op → Bool
+  | .upsert doc => conformsBody ks doc && uniqueKeysBody doc
+  | .insert doc => conformsBody ks doc && uniqueKeysBody doc
+  | .update doc => conformsBody ks doc && uniqueKeysBody doc
+  | .delChild _ => true
+  | .delRow _ _ => true
+  | .replace i d => match ks[i]? with
+    | some s => conforms s d && uniqueKeys d
+    | none => false
+
 end YangVerif.Data
